@@ -120,6 +120,8 @@ class G8:
                 args = rng.choice(STRS) if kk < 0.8 else self.expr(5)
             elif name in (".include", "insert_file", ".raw_include"):
                 args = rng.choice(PATHS)
+                if rng.random() < 0.15:
+                    args += "<%s>" % rng.choice(NUMS)
             elif name.startswith("make_"):
                 args = rng.choice(OUTS)
             elif name == ".repeat":
@@ -132,8 +134,11 @@ class G8:
             else:
                 args = ", ".join(self.expr(4) for _ in range(rng.choice([0, 1, 1, 1, 2, 3])))
             return name + " " + args
-        if k < 0.96:
+        if k < 0.93:
             return ", ".join(self.expr(5) for _ in range(rng.randint(1, 3)))
+        if k < 0.96:
+            # a symbol where a mnemonic is expected (implicit '.word' when it is a variable)
+            return "%s %s %s" % (rng.choice(SYMS[:8]), ", ".join(self.expr(5) for _ in range(rng.randint(0, 2))), rng.choice(["", "", "{ nop }", "{ }", "(3)"]))
         return rng.choice(["", ";", "; comment", "}", "{", ")", "\\", "nop nop", "mov", ",", "=", ":", "' ", "\"", "<", "^", "#", "@", "%", ".", "..", "$", "1:2:", "a b c"])
 
     def program(self, nmax=60):
@@ -158,6 +163,8 @@ FAULTS = [
     ".link\n", ".link \"a\"\n", ".ascii 5\n", ".blkb \"a\"\n", ".repeat \"x\" { }\n", ".word .word\n", ".word r0\n", ".word sp:\n", "sp: nop\n", "r0 = 5\n", ". = \n", ". == 5\n", "= 5\n",
     ".word 1e\n", ".word 0x\n", ".word ^B\n", ".word 1$\n", ".word 1:\n", ".word 99999999999999999999999999999999999999\n", ".dword 40000000000\n", ".dword -40000000000\n",
     "insert_file \"blob.bin\"\ninsert_file \"blob.bin\"\n.even\nnop\n", ".include \"inc.mac\"\n.include \"inc.mac\"\n", "nop\n.link 1000\n", ".word a$b\n", "a$ = 1\n", "$ = 1\n.word $\n",
+    "a = 1\na 1 { nop }\n", "a = 1\na { }\n", "insert_file \"x\" <40000000000>\n", ".include \"inc.mac\"<200000000000>\n", "make_raw \"o\"<99999999999>\n",
+    ".ascii <40000000000>\n", ".ascii \"a\"<-1>\n", ".title x <99999999999>\n", ".rad50 /a/<99999999999>\n", ".even 2\n", ".end main\n", "even 2\n", ".once 1\n", ".page 3\n",
     "\x00", "\ufeff.word 1\n", "nop\r\nnop\r\n", "nop\rnop\r", "\t\t\n \n", "", "\n", ";\n", ";" * 5000, "nop\n" * 3000, ".word " + ", ".join(["1"] * 3000) + "\n", ".word " + " + ".join(["1"] * 60) + "\n",
     ".word " + "(" * 8 + "1" + ")" * 8 + "\n", ".word " + "-" * 8 + "1\n", ".word " + "^c" * 8 + "1\n", ".word " + "(" * 40 + "1" + ")" * 40 + "\n", "x = " + " * ".join(["a"] * 50) + "\na = 2\n.dword x\n",
 ]
@@ -331,6 +338,12 @@ def run(ctx):
         def one(text, origin, idx):
             with open(src, "w", encoding="utf-8", errors="surrogatepass", newline="") as f:
                 f.write(text)
+            # the text as the command line reads it (universal newlines), so that both runs see the same
+            try:
+                with open(src, encoding="utf-8") as f:
+                    text = f.read()
+            except UnicodeDecodeError:
+                ctx.count("text that is not UTF-8 on disk (in-process run only)")
             r = impl.assemble([(src, text)], timeout=10.0)
             c = classify(r)
             ctx.case(text, nontrivial=(c == "ok" or (c == "failed" and not any(x[0] == "critical" for x in r.diags))))
